@@ -6,3 +6,4 @@ answers whether that failure is an instance of the recorded defect: the scope
 predicate on the case AND the observed behaviour equal to what the defect
 produces.  Anything else stays a violation.
 """
+
